@@ -363,7 +363,7 @@ def build_case(rng, fam, n, backend, idkind, stats):
     c = X5.build_case(rng, fam, n, "standalone", backend, idkind, None, thr=None, cut_rate=1.0, noise=True)
     for e in c["edges"]:
         e[2] = rng.choice(PROBS)
-    c["thresholds"] = gen_thresholds(rng, allow_negative_weights=stats)
+    c["thresholds"] = gen_thresholds(rng, allow_negative_weights=True)  # alias defect fixed in /repo (c4e4ddd2)
     c["stats"] = stats
     del c["thr"]
     return c
